@@ -624,6 +624,10 @@ def check_C07(ctx):
     so = tlc(ctx, "mc/MC_SetMeta.cfg", "mc/MC_SetMeta.tla", workers=4)["out"]
     ss = hv(ctx, "replay-setmeta", **{"in": so})
     ctx.extra["extra_setmeta_queries"] = ss.get("evaluations", 0)
+    # growth: the diagram exports (spec/HpoExport.tla): node set, edge set, bag of name pairs; EXTRA-FINDING only
+    eo = tlc(ctx, "mc/MC_Export.cfg", "mc/MC_Export.tla", workers=4)["out"]
+    es = hv(ctx, "replay-export", **{"in": eo})
+    ctx.extra["extra_export_cases"] = es.get("cases", 0)
     ctx.assumptions += ["replacement id 0 is excluded: the layout reserves 0 for 'no replacement'",
                         "ontologies must contain HP:0000001 and HP:0000118 (from_bytes applies the default categories)"]
     return finish(ctx)
